@@ -161,7 +161,10 @@ func (p *simpleGraphPrinter) print(g graph.Graph, name string, needsIndent, isSu
 				return errors.New("dot: mismatched graph type")
 			}
 			p.buf.WriteByte('\n')
-			p.print(g, g.DOTID(), true, true)
+			err := p.print(g, g.DOTID(), true, true)
+			if err != nil {
+				return err
+			}
 		}
 	}
 
@@ -185,7 +188,10 @@ func (p *simpleGraphPrinter) print(g graph.Graph, name string, needsIndent, isSu
 					havePrintedNodeHeader = true
 				}
 				p.newline()
-				p.print(g, graphID(g, n), false, true)
+				err := p.print(g, graphID(g, n), false, true)
+				if err != nil {
+					return err
+				}
 			}
 			continue
 		}
@@ -238,7 +244,10 @@ func (p *simpleGraphPrinter) print(g graph.Graph, name string, needsIndent, isSu
 				if subIsDirected != isDirected {
 					return errors.New("dot: mismatched graph type")
 				}
-				p.print(g, graphID(g, n), false, true)
+				err := p.print(g, graphID(g, n), false, true)
+				if err != nil {
+					return err
+				}
 			} else {
 				p.writeNode(n)
 			}
@@ -264,7 +273,10 @@ func (p *simpleGraphPrinter) print(g graph.Graph, name string, needsIndent, isSu
 				if subIsDirected != isDirected {
 					return errors.New("dot: mismatched graph type")
 				}
-				p.print(g, graphID(g, t), false, true)
+				err := p.print(g, graphID(g, t), false, true)
+				if err != nil {
+					return err
+				}
 			} else {
 				p.writeNode(t)
 			}
@@ -460,7 +472,10 @@ func (p *multiGraphPrinter) print(g graph.Multigraph, name string, needsIndent, 
 				return errors.New("dot: mismatched graph type")
 			}
 			p.buf.WriteByte('\n')
-			p.print(g, g.DOTID(), true, true)
+			err := p.print(g, g.DOTID(), true, true)
+			if err != nil {
+				return err
+			}
 		}
 	}
 
@@ -484,7 +499,10 @@ func (p *multiGraphPrinter) print(g graph.Multigraph, name string, needsIndent, 
 					havePrintedNodeHeader = true
 				}
 				p.newline()
-				p.print(g, graphID(g, n), false, true)
+				err := p.print(g, graphID(g, n), false, true)
+				if err != nil {
+					return err
+				}
 			}
 			continue
 		}
@@ -544,7 +562,10 @@ func (p *multiGraphPrinter) print(g graph.Multigraph, name string, needsIndent, 
 					if subIsDirected != isDirected {
 						return errors.New("dot: mismatched graph type")
 					}
-					p.print(g, graphID(g, n), false, true)
+					err := p.print(g, graphID(g, n), false, true)
+					if err != nil {
+						return err
+					}
 				} else {
 					p.writeNode(n)
 				}
@@ -570,7 +591,10 @@ func (p *multiGraphPrinter) print(g graph.Multigraph, name string, needsIndent, 
 					if subIsDirected != isDirected {
 						return errors.New("dot: mismatched graph type")
 					}
-					p.print(g, graphID(g, t), false, true)
+					err := p.print(g, graphID(g, t), false, true)
+					if err != nil {
+						return err
+					}
 				} else {
 					p.writeNode(t)
 				}
